@@ -191,6 +191,7 @@ type Rec struct {
 	// PostCall runs after every logged call (used to log what happened to caller memory)
 	PostCall func()
 	NoBatch  bool
+	probes   []int
 }
 
 func NewRec(d TreeDriver, t int, tr *Trace, seed int64) *Rec {
@@ -678,6 +679,11 @@ func (r *Rec) RunBattery(bt Battery) {
 				r.Seq("Prefix", p, 0, 0)
 			}
 		} else {
+			// the structurally interesting probes always: probe-only entries and entries that are a
+			// proper prefix of another entry; plus a random sample of the rest
+			for _, p := range r.prefixProbes() {
+				r.Seq("Prefix", p, 0, 0)
+			}
 			for i := 0; i < bt.Prefix; i++ {
 				r.Seq("Prefix", 1+r.R.Intn(n), 0, 0)
 			}
@@ -689,6 +695,29 @@ func (r *Rec) RunBattery(bt Battery) {
 	if bt.Dump {
 		r.DumpLine()
 	}
+}
+
+func (r *Rec) prefixProbes() []int {
+	if r.probes != nil {
+		return r.probes
+	}
+	uni := r.D.Universe()
+	r.probes = []int{}
+	for i, e := range uni {
+		interesting := e.Probe
+		if !interesting {
+			for j, f := range uni {
+				if i != j && len(f.O) > len(e.O) && string(f.O[:len(e.O)]) == string(e.O) {
+					interesting = true
+					break
+				}
+			}
+		}
+		if interesting && len(r.probes) < 24 {
+			r.probes = append(r.probes, i+1)
+		}
+	}
+	return r.probes
 }
 
 func (r *Rec) randomIterCheck(sz int) {
@@ -708,6 +737,9 @@ func (r *Rec) randomIterCheck(sz int) {
 		k = r.R.Intn(sz + 2)
 	case "Range":
 		a, b = 1+r.R.Intn(n), 1+r.R.Intn(n)
+		if r.R.Intn(3) == 0 {
+			b = n // upper bound at or above every stored key
+		}
 		if !d.RangeOK(a, b) || (d.Family() == "alpha" && len(d.Universe()[b-1].O) == 0) {
 			name = "All"
 		}
